@@ -28,6 +28,15 @@ def run(ctx):
                       opts_variants=[{'cse': False}], dims=(2, 3, 4), ncfg={3: (2, 1), 4: (1, 0)})
     # single blades of every grade up to d = 8 (the involution signs depend on the grade mod 4)
     groups += blade_pair_plan(ctx, ['reverse', 'involute', 'conjugate', 'neg'], dims=(4, 5, 6, 7, 8))
+    # laws on recorded results: involutions twice, (anti)automorphisms of the library's own product
+    import patterns as P
+    from kdriver import ucfg, named_ucfg
+    from plans import config_list
+    rng = ctx.rng
+    for d, n in ((1, 10), (2, 40 if q else 300), (3, 30 if q else 300), (4, 12 if q else 120), (5, 4 if q else 40), (6, 2 if q else 12)):
+        for u in ([ucfg(sig=s) for s in P.all_sigs(d)] if d <= 2 else config_list(ctx, d, 2 if q else 6, 1 if d <= 4 else 0)):
+            kts = P.sampled_key_tuples(rng, d, 2 * n, max_len={1: 2, 2: 4, 3: 6, 4: 5, 5: 4, 6: 3}[d])
+            groups.append({'u': u, 'opts': {}, 'cases': [('law', [kts[2 * i], kts[2 * i + 1]], []) for i in range(n)], 'revisit': 0})
     run_plan(ctx, groups)
     return ctx.finish(
         rule='case = (configuration, options, operator in {add,sub,neg,reverse,involute,conjugate,grade(selection)}, ordered key '
